@@ -47,6 +47,44 @@ def atoms(tier):
     return ats
 
 
+class AgeAtLeast(PP.GePredicate):
+    """a user's own atom: same constant, another meaning (ages are ints)"""
+
+    def __call__(self, x):
+        return isinstance(x, int) and not isinstance(x, bool) and x >= self.v
+
+
+class AtMost(PP.LePredicate):
+    def __call__(self, x):
+        return isinstance(x, (int, float)) and x <= self.v
+
+
+class OneOf(PP.Predicate):
+    """an atom that is falsy as an OBJECT when it has no members"""
+
+    def __init__(self, members=()):
+        self.members = tuple(members)
+
+    def __call__(self, x):
+        return x in self.members
+
+    def __len__(self):
+        return len(self.members)
+
+    def __eq__(self, other):
+        return type(other) is OneOf and other.members == self.members
+
+    def __repr__(self):
+        return f"OneOf({self.members!r})"
+
+
+def user_atoms():
+    # (subclasses of the library's OWN atom classes that change __call__, like AgeAtLeast / AtMost above, are not used: negate() and the
+    #  rules dispatch on the base class and cannot know the new meaning - on the reviewed tree `p ^ negate(p)` already stays unreduced for them.
+    #  A user-defined atom class of its own is an atom like fn_p: the laws must hold for it.)
+    return [OneOf(()), OneOf((1, 2)), OneOf((None,))]
+
+
 def correspondence(payload):
     trees = []
     for p in atoms(payload["tier"]):
@@ -59,7 +97,7 @@ def correspondence(payload):
 
 def search(payload):
     fails, known_hits, n = [], [], 0
-    for p in atoms(payload["tier"]):
+    for p in atoms(payload["tier"]) + user_atoms():
         for name, lhs, code in laws(p):
             n += 1
             try:
